@@ -42,7 +42,8 @@ Emptyish(tv) == \/ GoEmpty(tv) \/ tv.g \in {"struct", "array", "time", "custom",
 
 ValClass(tv) == IF IsNilPtr(tv) \/ IsNilCont(tv) THEN "nil" ELSE IF GoEmpty(tv) THEN "empty" ELSE "set"
 \* kind of a field value, two levels: what the locus reports
-KindOf(tv) == IF tv.g \in {"ptr", "iface"} THEN <<tv.g, IF tv.nil THEN "-" ELSE tv.a[1].g>>
+KindOf(tv) == IF tv.g = "slice" /\ tv.byt THEN <<"bytes", "-">>
+              ELSE IF tv.g \in {"ptr", "iface"} THEN <<tv.g, IF tv.nil THEN "-" ELSE tv.a[1].g>>
               ELSE IF tv.g \in {"slice", "array", "map"} THEN <<tv.g, IF tv.a = <<>> THEN "-" ELSE tv.a[1].g>>
               ELSE IF tv.g = "custom" THEN <<tv.g, tv.how>> ELSE <<tv.g, "-">>
 TagForm(f) == IF ~f.tp THEN "none" ELSE IF f.dash THEN "dash"
@@ -95,14 +96,15 @@ Entries(fs, i, o, ctx, inh) ==
   ELSE IF flat /\ inner.g = "struct"
        THEN Entries(inner.f, 1, o, IF f.v.g = "ptr" THEN "embedded-ptr" ELSE "embedded", inh \/ (\E j \in (i + 1)..Len(fs) : fs[j].oe)) \o rest
   ELSE IF flat /\ IsNilPtr(f.v) THEN <<[ks |-> {}, v |-> AnyP, req |-> "open", d |-> Descr(f, ctx, rel)]>> \o rest   \* nothing stated
-  ELSE LET vp == IF o.tags /\ f.str THEN (IF f.v.g \in {"bool", "int", "uint8", "float"} THEN Leaf("str", f.v.s) ELSE AnyP)
+  ELSE LET vp == IF o.tags /\ f.str /\ f.v.g \in {"bool", "int", "uint8", "float"} THEN Leaf("str", f.v.s)   \* ,string: quoted scalar
+                 ELSE IF o.tags /\ f.str /\ f.v.g = "string" THEN AnyP     \* encoding/json quotes the string once more; not stated for ojg
                  ELSE Pat(f.v, o)
        IN <<[ks |-> KeySet(f, o), v |-> vp, req |-> FieldReq(f, o), d |-> Descr(f, ctx, rel)]>> \o rest
 
 \* two fields that map to the same key: the documentation does not say what happens
 Decollide(es) == [i \in 1..Len(es) |->
-                   IF \E j \in 1..Len(es) : j # i /\ es[j].req # "not" /\ es[i].ks \cap es[j].ks # {}
-                   THEN [es[i] EXCEPT !.v = AnyP, !.req = IF es[i].req = "not" THEN "drop" ELSE "may"] ELSE es[i]]
+                   IF \E j \in 1..Len(es) : j # i /\ es[i].ks \cap es[j].ks # {}
+                   THEN [es[i] EXCEPT !.v = AnyP, !.req = IF es[i].req = "not" THEN "drop" ELSE "may", !.d.ctx = "key-collision"] ELSE es[i]]
 
 StructPat(tv, o) ==
   LET ckE == IF o.ck = "" THEN <<>>
@@ -169,19 +171,27 @@ Dev(pat, tr, d) ==
              IF extra = {} THEN <<>> ELSE <<[w |-> "extra-member", d |-> [d EXCEPT !.key = tr.m[One(extra)].k]]>>)
 
 \* ---------------------------------------------------------------- comparing two observed trees
-\* Agreement is strict, except that under OmitEmpty the documentation itself says writing and Decompose differ on "maps
-\* with all empty members": members whose value is an object left without members are disregarded on both sides.
-RECURSIVE Prune(_)
-Prune(tr) == IF tr.t = "arr" THEN [tr EXCEPT !.a = [i \in 1..Len(tr.a) |-> Prune(tr.a[i])]]
-             ELSE IF tr.t = "obj" THEN
-                  LET ms == [i \in 1..Len(tr.m) |-> [k |-> tr.m[i].k, v |-> Prune(tr.m[i].v)]] IN
-                  [tr EXCEPT !.m = SelectSeq(ms, LAMBDA x : ~(x.v.t = "obj" /\ x.v.m = <<>>))]
-             ELSE tr
-Norm(tr, o) == IF o.oempty THEN Prune(tr) ELSE tr
+\* Agreement is strict, except where the documentation itself is loose:
+\*  - OmitEmpty: "skips the writing of empty string, slices, maps, and zero values although maps with all empty members
+\*    will not be skipped on writing but will be with alt.Decompose and alter".  The writers judge emptiness on the Go
+\*    value, Decompose on the decomposed value; which members with an EMPTY encoding (null false 0 "" [] {}, bottom-up)
+\*    are written is therefore left to the Reference layer (which forbids the clear cases) and disregarded here.
+\*  - OmitNil: "skips the writing of nil values in an object" does not say whether a nil slice or map is a nil value or
+\*    an empty container: members whose encoding is null, [] or {} are disregarded here (nil pointers and interfaces are
+\*    forbidden by the Reference layer).
+RECURSIVE Prune(_, _)
+EmptyEnc(x, all) == x.t = "null" \/ (x.t = "arr" /\ x.a = <<>>) \/ (x.t = "obj" /\ x.m = <<>>)
+                    \/ (all /\ ((x.t = "bool" /\ x.s = "false") \/ (x.t = "num" /\ x.s = "0") \/ (x.t = "str" /\ x.s = "")))
+Prune(tr, all) == IF tr.t = "arr" THEN [tr EXCEPT !.a = [i \in 1..Len(tr.a) |-> Prune(tr.a[i], all)]]
+                  ELSE IF tr.t = "obj" THEN
+                       LET ms == [i \in 1..Len(tr.m) |-> [k |-> tr.m[i].k, v |-> Prune(tr.m[i].v, all)]] IN
+                       [tr EXCEPT !.m = SelectSeq(ms, LAMBDA x : ~EmptyEnc(x.v, all))]
+                  ELSE tr
+Norm(tr, o) == IF o.oempty THEN Prune(tr, TRUE) ELSE IF o.onil THEN Prune(tr, FALSE) ELSE tr
 
 \* equality up to nil-versus-empty containers (comparison with encoding/json)
 RECURSIVE NilEq(_, _)
-EmptyCont(x) == (x.t = "arr" /\ x.a = <<>>) \/ (x.t = "obj" /\ x.m = <<>>)
+EmptyCont(x) == (x.t = "arr" /\ x.a = <<>>) \/ (x.t = "obj" /\ x.m = <<>>) \/ (x.t = "str" /\ x.s = "")   \* "" = an empty []byte
 NilEq(x, y) == \/ x = y
                \/ (x.t = "null" /\ EmptyCont(y)) \/ (y.t = "null" /\ EmptyCont(x))
                \/ (x.t = "arr" /\ y.t = "arr" /\ Len(x.a) = Len(y.a) /\ \A i \in 1..Len(x.a) : NilEq(x.a[i], y.a[i]))
@@ -197,8 +207,10 @@ TreeDiff(x, y) ==       \* x = the tree under judgement, y = the tree it should 
   ELSE LET dup == {k \in KeysOf(x) : CountK(x, k) > 1}
            mis == KeysOf(y) \ KeysOf(x)
            ext == KeysOf(x) \ KeysOf(y)
-           dif == {k \in KeysOf(x) \cap KeysOf(y) : CountK(x, k) = 1 /\ CountK(y, k) = 1 /\ ~NilEq(ValOf(x, k), ValOf(y, k))} IN
+           dif == {k \in KeysOf(x) \cap KeysOf(y) : CountK(x, k) = 1 /\ CountK(y, k) = 1 /\ ~NilEq(ValOf(x, k), ValOf(y, k))}
+           dupy == {k \in KeysOf(y) : CountK(y, k) > 1} IN
        IF dup # {} THEN [w |-> "duplicate", key |-> One(dup)]
+       ELSE IF dupy # {} THEN [w |-> "duplicate-in-reference", key |-> One(dupy)]
        ELSE IF mis # {} THEN [w |-> "missing", key |-> One(mis)]
        ELSE IF ext # {} THEN [w |-> "extra-member", key |-> One(ext)]
        ELSE IF dif # {} THEN [w |-> <<"value", ValOf(x, One(dif)).t, ValOf(y, One(dif)).t>>, key |-> One(dif)]
@@ -208,6 +220,17 @@ TreeDiff(x, y) ==       \* x = the tree under judgement, y = the tree it should 
 RECURSIVE OwnerOf(_, _, _)
 OwnerOf(pat, k, i) == IF pat.p # "obj" \/ i > Len(pat.m) THEN [NoDescr EXCEPT !.key = k]
                       ELSE IF k \in pat.m[i].ks THEN pat.m[i].d ELSE OwnerOf(pat, k, i + 1)
+
+\* values containing json.Marshaler / TextMarshaler implementers (alt.Decompose is documented to use Simplify() or reflection,
+\* not the marshalers) and pointer-receiver implementers (encoding x and &x legitimately differ, as in encoding/json)
+RECURSIVE HasCustom(_, _)
+HasCustom(tv, hows) ==
+  IF tv.g = "custom" THEN tv.how \in hows
+  ELSE IF tv.g \in {"ptr", "iface", "slice", "array", "map"} THEN \E i \in 1..Len(tv.a) : HasCustom(tv.a[i], hows)
+  ELSE IF tv.g = "struct" THEN \E i \in 1..Len(tv.f) : tv.f[i].exp /\ HasCustom(tv.f[i].v, hows)
+  ELSE FALSE
+HasMarshaler(tv) == HasCustom(tv, {"jsonm", "textm", "jsonm/ptr", "textm/ptr"})
+PtrRecv(tv) == HasCustom(tv, {"jsonm/ptr", "textm/ptr", "simplifier/ptr", "genericer/ptr"})
 
 \* features encoding/json and ojg both support (everything else is excluded from the comparison with encoding/json)
 RECURSIVE BothSupport(_)
